@@ -3,7 +3,11 @@
     (the spy layer): the call is appended to the trace, a crash point stops
     the whole computation ([MHalt], never caught), a fault plan makes the call
     fail with EIO without being executed. *)
+From stdpp Require Import gmap.
 From BFS Require Export Fs.FsModel.
+
+(** BackupFS's only mutable field: [baseInfos] (path -> original info, [None] = did not exist) *)
+Notation infomap := (gmap str (option finfo)).
 
 Inductive fstag := TBase | TBackup.
 
@@ -19,7 +23,8 @@ Record world := mkWorld {
   w_trace : list tcall;        (* most recent first *)
   w_ticks : N;
   w_crash : option N;          (* halt when this many primitive calls have been made *)
-  w_faults : list fault }.
+  w_faults : list fault;
+  w_infos : infomap }.
 
 Inductive mres (A : Type) := MOk (a : A) | MErr (e : errno) | MHalt.
 Arguments MOk {A} a.
@@ -37,8 +42,8 @@ Definition bind {A B} (m : M A) (f : A -> M B) : M B :=
            | (MHalt, w') => (MHalt, w')
            end.
 
-Notation "x <- m ;; k" := (bind m (fun x => k)) (at level 61, m at next level, right associativity).
-Notation "m ;;; k" := (bind m (fun _ => k)) (at level 61, right associativity).
+Notation "x <- m ;; k" := (bind m (fun x => k)) (at level 100, m at next level, right associativity).
+Notation "m ;;; k" := (bind m (fun _ => k)) (at level 100, right associativity).
 
 (** run [m]; hand its error (if any) to the continuation; never catches a halt *)
 Definition try_ {A} (m : M A) : M (res A) :=
@@ -57,7 +62,7 @@ Definition fs_get {A} (f : fstate -> res A) : M A := fun w => lift_res (f (w_st 
 (** a state-changing filesystem primitive *)
 Definition fs_upd {A} (f : fstate -> res A * fstate) : M A :=
   fun w => let '(r, s') := f (w_st w) in
-           lift_res r (mkWorld s' (w_trace w) (w_ticks w) (w_crash w) (w_faults w)).
+           lift_res r (mkWorld s' (w_trace w) (w_ticks w) (w_crash w) (w_faults w) (w_infos w)).
 
 Definition pmeth_eqb (a b : pmeth) : bool :=
   match a, b with
@@ -91,14 +96,14 @@ Definition faulted (w : world) (t : fstag) (m : pmeth) (p : str) : bool :=
           (w_faults w).
 
 Definition record (c : tcall) (w : world) : world :=
-  mkWorld (w_st w) (c :: w_trace w) (w_ticks w) (w_crash w) (w_faults w).
+  mkWorld (w_st w) (c :: w_trace w) (w_ticks w) (w_crash w) (w_faults w) (w_infos w).
 
 (** the spy around one primitive call *)
 Definition spied {A} (t : fstag) (m : pmeth) (p p2 : str) (op : M A) : M A :=
   fun w =>
     match w_crash w with
     | Some k => if N.leb k (w_ticks w) then (MHalt, w) else
-        let w1 := mkWorld (w_st w) (w_trace w) (N.succ (w_ticks w)) (w_crash w) (w_faults w) in
+        let w1 := mkWorld (w_st w) (w_trace w) (N.succ (w_ticks w)) (w_crash w) (w_faults w) (w_infos w) in
         if faulted w1 t m p then (MErr EIO, record (mkTcall t m p p2 (Some EIO)) w1)
         else match op w1 with
              | (MOk a, w2) => (MOk a, record (mkTcall t m p p2 None) w2)
@@ -106,7 +111,7 @@ Definition spied {A} (t : fstag) (m : pmeth) (p p2 : str) (op : M A) : M A :=
              | (MHalt, w2) => (MHalt, w2)
              end
     | None =>
-        let w1 := mkWorld (w_st w) (w_trace w) (N.succ (w_ticks w)) (w_crash w) (w_faults w) in
+        let w1 := mkWorld (w_st w) (w_trace w) (N.succ (w_ticks w)) (w_crash w) (w_faults w) (w_infos w) in
         if faulted w1 t m p then (MErr EIO, record (mkTcall t m p p2 (Some EIO)) w1)
         else match op w1 with
              | (MOk a, w2) => (MOk a, record (mkTcall t m p p2 None) w2)
@@ -127,3 +132,8 @@ Fixpoint miter {A} (f : A -> M unit) (l : list A) : M unit :=
   | [] => ret tt
   | x :: r => f x ;;; miter f r
   end.
+
+(** access to [baseInfos] *)
+Definition get_infos : M infomap := fun w => (MOk (w_infos w), w).
+Definition put_infos (i : infomap) : M unit :=
+  fun w => (MOk tt, mkWorld (w_st w) (w_trace w) (w_ticks w) (w_crash w) (w_faults w) i).
